@@ -3,6 +3,9 @@
 import json, os
 HOOK_COMMITS = ["1d323e3"]
 CHECKS = {
+ "C10": dict(cat="exploration", tech="runtime monitoring: relational (metamorphic) monitor over real parses and runs of layout variants of the same model program, canonical-AST equality, prefix classification against the real parser's indentation-error flag",
+   text="Each generated program (four kgen profiles, about 30 000 per quick run) is printed canonically and in seeded layout variants flipping the documented freedoms (comments of three kinds, blank lines, trailing whitespace, CRLF, redundant parentheses, number and quote spelling, paren-free calls, inline vs block forms of if / arms / function bodies / maps, broken binary expressions, argument lists, list literals and call chains); the real runs must behave identically and the real parses must give the identical syntax tree (exactly for trivia-only variants, modulo the declared cosmetic flags otherwise). Trivia variants of every parseable corpus program must parse to the identical tree. Every header-line and dangling-operator prefix must be flagged as an indentation error by the real parser and complete-statement prefixes never.",
+   note="No model in the verdict (real vs real), except that variants are born from the model AST by the printer; the printer stays inside the plainly documented layout forms (header expressions on one line, one broken construct per statement). AST canonicaliser works on the nodes' Debug rendering.", ref="4 C10, 3.4.2"),
  "C04": dict(cat="fault_enumeration", tech="runtime monitoring: planted-fault enumeration over generated try/catch/finally skeletons, differential monitor against the executable reference model, residue invariant at the VM state hook",
    text="About 100 000 seeded skeletons per quick run: try expressions nested to depth 3 with typed catches, finally and rethrowing handlers; faults of nine kinds planted directly, 1-3 calls deep, inside native callbacks (each / keep / fold / consume), inside generator bodies and inside string interpolation; progress lists make the state at the throw point and the finally executions visible. The reference model decides handler selection, finally value, surviving state and the uncaught message; the runs must also leave the VM quiescent (hook H1/H2) and raise no VM-monitor fault or panic.",
    note="Trusted: reference model of exception semantics and printer. Recorded defect shapes F-B1 (finally vs control flow), F-B2, F-B5 are excluded from generation and replayed as witnesses.", ref="4 C04"),
